@@ -80,7 +80,10 @@ fn hash_tree(dir: &str) -> String {
     h(&all)
 }
 
-const EXTRA: [(&str, &str); 7] = [
+const EXTRA: [(&str, &str); 10] = [
+    ("<several unknown keyword arguments>", "def f(a: int) -> int:\n    return a\n\nclass K:\n    v: int\n\n    def m(self, a: int) -> int:\n        return a\n\ndef main() -> None:\n    x = f(a=1, zz=2, yy=3, xx=4, ww=5, vv=6)\n    y = K(v=1).m(a=1, q1=1, q2=2, q3=3, q4=4, q5=5)\n    z = f(1, 2, 3, 4, b=1, c=2, d=3)\n"),
+    ("<several wrong arguments>", "def f(a: int, b: int, c: int, d: int, e: int) -> int:\n    return a\n\ndef main() -> None:\n    x = f(\"a\", \"b\", \"c\", \"d\", \"e\")\n    y = f(a=\"a\", e=\"e\", c=\"c\", b=\"b\", d=\"d\")\n    z = f()\n"),
+    ("<several unused / shadowed / duplicate declarations>", "def f() -> int:\n    return 1\n\ndef f() -> int:\n    return 2\n\nmodel M:\n    a: int\n    a: int\n    b: str\n    b: str\n\nenum E:\n    A\n    A\n    B\n    B\n\ndef main() -> None:\n    m = M(a=1, b=\"x\")\n    n = nope1(nope2, nope3, nope4)\n    m.q1 = 1\n    m.q2 = 2\n    print(m.r1, m.r2, m.r3)\n"),
     ("<several missing fields>", "model P:\n    a: int\n    b: int\n    c: int\n    d: str\n    e: str\n\ndef main() -> None:\n    p = P()\n    q = P(a=1, zz=2, yy=3, xx=4)\n"),
     ("<several unknown names>", "def main() -> None:\n    print(u1, u2, u3, u4)\n    x: int = \"s\"\n    y: str = 1\n"),
     ("<several traits>", "trait A:\n    def a(self) -> int: ...\n\ntrait B:\n    def b(self) -> int: ...\n\ntrait C:\n    def c(self) -> int: ...\n\nclass K with A, B, C:\n    v: int\n\ndef main() -> None:\n    pass\n"),
